@@ -287,3 +287,120 @@ pub fn replay_sj(rep: &mut Report, rec: &J) {
 	let n = rep.counters["sj_vectors"];
 	rep.sample(37, n, || rec.clone());
 }
+
+// ------------------------------------------------------------------ a term as a self-describing Deserializer
+use serde::de::{self, DeserializeSeed, Deserializer, MapAccess, SeqAccess, Visitor};
+
+#[derive(Debug)]
+pub struct TermErr(String);
+impl std::fmt::Display for TermErr {
+	fn fmt(&self, f: &mut std::fmt::Formatter) -> std::fmt::Result {
+		f.write_str(&self.0)
+	}
+}
+impl std::error::Error for TermErr {}
+impl de::Error for TermErr {
+	fn custom<T: std::fmt::Display>(m: T) -> Self {
+		TermErr(m.to_string())
+	}
+}
+
+pub struct TermDe<'a>(pub &'a Term);
+
+struct TermSeq<'a>(std::slice::Iter<'a, Term>);
+impl<'de, 'a> SeqAccess<'de> for TermSeq<'a> {
+	type Error = TermErr;
+	fn next_element_seed<T: DeserializeSeed<'de>>(&mut self, seed: T) -> Result<Option<T::Value>, TermErr> {
+		match self.0.next() {
+			Some(t) => seed.deserialize(TermDe(t)).map(Some),
+			None => Ok(None),
+		}
+	}
+}
+struct TermMap<'a>(std::slice::Iter<'a, (Term, Term)>, Option<&'a Term>);
+impl<'de, 'a> MapAccess<'de> for TermMap<'a> {
+	type Error = TermErr;
+	fn next_key_seed<T: DeserializeSeed<'de>>(&mut self, seed: T) -> Result<Option<T::Value>, TermErr> {
+		match self.0.next() {
+			Some((k, v)) => {
+				self.1 = Some(v);
+				seed.deserialize(TermDe(k)).map(Some)
+			}
+			None => Ok(None),
+		}
+	}
+	fn next_value_seed<T: DeserializeSeed<'de>>(&mut self, seed: T) -> Result<T::Value, TermErr> {
+		seed.deserialize(TermDe(self.1.take().ok_or_else(|| TermErr("value before key".into()))?))
+	}
+}
+
+impl<'de, 'a> Deserializer<'de> for TermDe<'a> {
+	type Error = TermErr;
+	fn deserialize_any<V: Visitor<'de>>(self, v: V) -> Result<V::Value, TermErr> {
+		match self.0 {
+			Term::Unit | Term::UnitStruct => v.visit_unit(),
+			Term::None => v.visit_none(),
+			Term::Bool(b) => v.visit_bool(*b),
+			Term::Int(n, salt) => match n.parse::<i64>() {
+				Ok(i) if i < 0 || salt % 2 == 0 => v.visit_i64(i),
+				_ => v.visit_u64(n.parse::<u64>().map_err(|_| TermErr("int out of range".into()))?),
+			},
+			Term::Float(32, bits) => v.visit_f32(f32::from_bits(*bits as u32)),
+			Term::Float(_, bits) => v.visit_f64(f64::from_bits(*bits)),
+			Term::Char(c) => v.visit_char(*c),
+			Term::Str(s) => {
+				if s.len() % 2 == 0 {
+					v.visit_str(s)
+				} else {
+					v.visit_string(s.clone())
+				}
+			}
+			Term::Bytes(b) => v.visit_bytes(b),
+			Term::Some(x) => v.visit_some(TermDe(x)),
+			Term::NewtypeStruct(x) => v.visit_newtype_struct(TermDe(x)),
+			Term::Seq(xs) | Term::Tuple(xs) | Term::TupleStruct(xs) => v.visit_seq(TermSeq(xs.iter())),
+			Term::Map(kvs) => v.visit_map(TermMap(kvs.iter(), None)),
+			// enums and structs are not presented by a self-describing format as such
+			Term::UnitVariant(_) | Term::NewtypeVariant(..) | Term::TupleVariant(..) | Term::Struct(_) | Term::StructVariant(..) => Err(TermErr("not a self-describing shape".into())),
+		}
+	}
+	serde::forward_to_deserialize_any! {
+		bool i8 i16 i32 i64 i128 u8 u16 u32 u64 u128 f32 f64 char str string bytes byte_buf option unit unit_struct
+		newtype_struct seq tuple tuple_struct map struct enum identifier ignored_any
+	}
+}
+
+fn self_describing(t: &Term) -> bool {
+	match t {
+		Term::UnitVariant(_) | Term::NewtypeVariant(..) | Term::TupleVariant(..) | Term::Struct(_) | Term::StructVariant(..) | Term::UnitStruct | Term::TupleStruct(_) => false,
+		Term::Float(..) => false,
+		Term::Some(x) | Term::NewtypeStruct(x) => self_describing(x),
+		Term::Seq(xs) | Term::Tuple(xs) => xs.iter().all(self_describing),
+		Term::Map(kvs) => kvs.iter().all(|(k, v)| self_describing(k) && self_describing(v)),
+		_ => true,
+	}
+}
+
+/// C17: `Value::deserialize` driven by a term (the ValueVisitor machine)
+pub fn replay_visitor(rep: &mut Report, rec: &J) {
+	let term = Term::from_json(&rec["d"], rep.counters.get("visitor_vectors").copied().unwrap_or(0) as u8);
+	if !self_describing(&term) {
+		return;
+	}
+	rep.count("visitor_vectors");
+	use serde::Deserialize;
+	let got = match guarded(|| Value::deserialize(TermDe(&term))) {
+		Err(p) => json!({"panic": p}),
+		Ok(Ok(v)) => json!({"ok": true, "v": project(&v)}),
+		Ok(Err(e)) => {
+			let m = e.to_string();
+			json!({"ok": false, "err": if m.starts_with("invalid type") { "invalid_type" } else if m.contains("invalid JSON number") || m.contains("invalid number") { "invalid_number" } else { "other" }, "msg": m})
+		}
+	};
+	rep.count("visitor_calls");
+	let exp = &rec["de"];
+	let same = got["ok"] == exp["ok"] && (got["ok"] == true && got["v"] == exp["v"] || got["ok"] == false && (got["err"] == exp["err"] || exp["err"] == "invalid_number" && got["err"] == "other"));
+	if !same {
+		rep.mismatch("C17.visitor", json!({"what": "Value::deserialize on a self-describing term differs from the ValueVisitor specification", "vector": rec, "observed": got}));
+	}
+}
